@@ -90,7 +90,19 @@ func (w *world) check(s slot, key uint64, probePly int) (hit bool, err error) {
 		return true, fmt.Errorf("probe of key %016x (bucket %d signature %04x) hits (depth %d type %d value %d move %v) but nothing is stored under it", key, s.bucket, s.sig, e.Depth(), e.Type(), e.Value(chess.Depth(probePly)), e.Move)
 	}
 	wantV := rebase(me.value, me.ply, probePly)
-	if int(e.Depth()) != me.depth || int(e.Type()) != me.typ || int(e.Value(chess.Depth(probePly))) != wantV || int(e.Move) != me.mv {
+	gotV := int(e.Value(chess.Depth(probePly)))
+	if me.value == inf-maxPlies || me.value == -inf+maxPlies {
+		// the exact boundary of the mate range: either consistent reading is accepted (treated as a mate
+		// distance on both sides, or on neither), an inconsistent one is not
+		alt := me.value + me.ply - probePly
+		if me.value < 0 {
+			alt = me.value - me.ply + probePly
+		}
+		if gotV == alt {
+			wantV = alt
+		}
+	}
+	if int(e.Depth()) != me.depth || int(e.Type()) != me.typ || gotV != wantV || int(e.Move) != me.mv {
 		return true, fmt.Errorf("probe of key %016x at ply %d returns depth %d type %d value %d move %v; stored: depth %d type %d value %d (stored at ply %d => %d) move %v",
 			key, probePly, e.Depth(), e.Type(), e.Value(chess.Depth(probePly)), e.Move, me.depth, me.typ, me.value, me.ply, wantV, move.Move(me.mv))
 	}
@@ -296,8 +308,8 @@ func drawValue(t *rapid.T) int {
 	switch gen.Draw(t, 0, 5, "vk") {
 	case 0:
 		return 0
-	case 1: // just inside the non-mate range
-		return []int{1, -1}[gen.Draw(t, 0, 1, "sgn")] * gen.Draw(t, inf-maxPlies-8, inf-maxPlies-1, "near")
+	case 1: // just inside the non-mate range, and its exact boundary
+		return []int{1, -1}[gen.Draw(t, 0, 1, "sgn")] * gen.Draw(t, inf-maxPlies-6, inf-maxPlies, "near")
 	case 2, 3: // mate bands
 		return []int{1, -1}[gen.Draw(t, 0, 1, "sgn")] * gen.Draw(t, inf-maxPlies+1, inf, "mate")
 	default:
@@ -316,7 +328,7 @@ func lanes(w uint64, key uint16) (int, bool) {
 
 func TestC15(t *testing.T) {
 	evid.Main(t, "C15", func(rec *evid.Rec) {
-		rec.Rule("model-based sequences (<=250 ops) of store / probe / clear / resize-then-clear / resize-without-clear / new-search (8 bit generation wraps) on tables of 1, 2, 3, 32, 1024 and 32768 buckets; keys from a pool built to collide: 8 low words x 9 signatures (incl. 0, 1, 0x7fff, 0x8000, 0xffff) x 4 middle words, so same-bucket/different-signature, same-signature/different-bucket and indistinguishable aliases all occur; depth 0..63, ply 0..63, three bound types, null and non-null moves, values over the whole range with weight on 0, the band just inside +-(Inf-MaxPlies) and the mate bands (the two exact boundary values left out). Model: map (bucket index via hook, signature) -> last accepted store with keep-deeper refusal and kept move; after every store every modelled slot of the bucket is probed: hits equal the model (mate values re-based), at most one other slot vanished, the stored slot hits; probes of unmodelled non-zero signatures must miss. Zero signatures: only 'immediate probe hits and reflects the store (or the deeper same-search entry)' and 'hits return something stored under a zero signature or the empty entry'. After resize without clear nothing is judged but panics. Lane matcher checked directly against a four-lane loop. Non-trivial = sequence with an eviction, a keep-deeper refusal, a kept move or a re-based mate value; distinct by sequence")
+		rec.Rule("model-based sequences (<=250 ops) of store / probe / clear / resize-then-clear / resize-without-clear / new-search (8 bit generation wraps) on tables of 1, 2, 3, 32, 1024 and 32768 buckets; keys from a pool built to collide: 8 low words x 9 signatures (incl. 0, 1, 0x7fff, 0x8000, 0xffff) x 4 middle words, so same-bucket/different-signature, same-signature/different-bucket and indistinguishable aliases all occur; depth 0..63, ply 0..63, three bound types, null and non-null moves, values over the whole range with weight on 0, the band just inside +-(Inf-MaxPlies) and the mate bands (for the two exact boundary values either consistent reading - re-based or not - is accepted). Model: map (bucket index via hook, signature) -> last accepted store with keep-deeper refusal and kept move; after every store every modelled slot of the bucket is probed: hits equal the model (mate values re-based), at most one other slot vanished, the stored slot hits; probes of unmodelled non-zero signatures must miss. Zero signatures: only 'immediate probe hits and reflects the store (or the deeper same-search entry)' and 'hits return something stored under a zero signature or the empty entry'. After resize without clear nothing is judged but panics. Lane matcher checked directly against a four-lane loop. Non-trivial = sequence with an eviction, a keep-deeper refusal, a kept move or a re-based mate value; distinct by sequence")
 		rec.Assume("hooks transp.VerifBucketIx / VerifBuckets / VerifMatch64 (build tag verif) only read; victim choice is left free as in the property")
 		rec.Rapid(t, "sequence", evid.Pick(80000, 1500000), func(t *rapid.T) {
 			c := Case{Size: sizes[gen.Draw(t, 0, len(sizes)-1, "size")]}
